@@ -287,6 +287,11 @@ func (h *hist) opAllocate() {
 	}
 	if h.rng.Intn(100) < h.k.TCPAllocPct {
 		o.Transport = 6
+	} else if h.rng.Intn(8) == 0 {
+		// EVEN-PORT (with or without reserving the next port): the server probes for an even port
+		// with throw-away relay sockets before it makes the allocation
+		r := h.rng.Intn(2) == 0
+		o.EvenPort = &r
 	}
 	resp := h.m.Allocate(c, o)
 	if resp != nil && resp.Class == wire.ClassSuccess {
